@@ -61,7 +61,8 @@ def normStyleL : List Q → List Q
   | q :: qs => normStyle q :: normStyleL qs
 end
 
-/-- same list up to order (decidable stand-in for `List.Perm`, see `permB_iff`) -/
+/-- same list up to order (a decidable stand-in for `List.Perm`; only used by the harness to check that its own variant
+producers moved metadata and lost none — no theorem depends on it) -/
 def permB : List Q → List Q → Bool
   | [], l => l.isEmpty
   | a :: as, l => match l.findIdx? (· == a) with
